@@ -56,7 +56,8 @@ TNext ==
         /\ pc' = [p \in Procs |-> "idle"] /\ ops' = [p \in Procs |-> 0] /\ closed' = FALSE
         /\ parked' = [p \in Procs |-> FALSE]
      \/ Ev.ev = "Blocked" /\ Blocked(Ev)
-     \/ Ev.ev \notin {"Reset", "Blocked"} /\ Act(Ev) /\ Observed(Ev)
+     \/ Ev.ev = "Note" /\ UNCHANGED vars          \* end-of-batch marker of the harness
+     \/ Ev.ev \notin {"Reset", "Blocked", "Note"} /\ Act(Ev) /\ Observed(Ev)
 
 TSpec == TInit /\ [][TNext]_<<vars, l>>
 
